@@ -237,7 +237,7 @@ func (sc *Scope) evalVal(e *SExpr) Val {
 			return Val{T: ArrayGet(bt, i)}
 		case bt.Sort.Role == "slice":
 			i := sc.evalWant(e.Args[1], SInt)
-			return Val{T: Select(FieldOf(bt, 0), addT(FieldOf(bt, 1), i))}
+			return Val{T: Select(slArr(bt), i)}
 		case bt.Sort.Role == "map":
 			k := sc.evalWant(e.Args[1], bt.Sort.Key)
 			return Val{T: Ite(Select(FieldOf(bt, 0), k), Select(FieldOf(bt, 1), k), sc.ex.vc.zeroTerm(bt.Sort.Elem))}
@@ -439,7 +439,7 @@ func (sc *Scope) call(e *SExpr) Term {
 		case "array":
 			return IntLit64(int64(t.Sort.N), sc.defaultIntSort())
 		case "slice", "map":
-			return FieldOf(t, 2)
+			return lenOf(t)
 		}
 		sc.errorf(e, "len of %s", t.Sort)
 	case "hasKey", "has":
@@ -461,7 +461,7 @@ func (sc *Scope) call(e *SExpr) Term {
 		case "ptr", "iface":
 			return Eq(t, Atom(t.Sort.Alt, t.Sort))
 		case "slice", "map":
-			return FieldOf(t, 3)
+			return nilOf(t)
 		}
 		sc.errorf(e, "isNil of %s", t.Sort)
 	case "deref":
